@@ -120,24 +120,37 @@ def protected_everywhere(rep, fb):
     """R16.8: every chart-controlled name that becomes a write into the Lua globals passes the protected-name test"""
     rep.rule('R16.8', 'every entry that writes a chart-controlled location tests it against the system variables: assign() (and init() through it) on the NORMALISED location (trimmed, first path component), setForeach() for its item and index names')
     asg = fb.fn('uscxml::LuaDataModel::assign', params=['string', 'Data', 'map'])
-    # 1. normalisation before the comparison
-    loc = [p_['lid'] for p_ in asg.d.get('params', []) if p_['name'] == 'location']
-    cmps = [n for n in asg.walk() if n['k'] == 'CXXMemberCallExpr' and n.get('callee', {}).get('q', '').endswith('::compare') and any(
-        x['k'] == 'StringLiteral' and x.get('str') in SYSTEM_VARS for x in sub(n))] + [n for n in asg.walk() if n['k'] == 'CXXOperatorCallExpr' and n.get('op') == '==' and any(
-        x['k'] == 'StringLiteral' and x.get('str') in SYSTEM_VARS for x in sub(n))]
+
+    def closure(f):
+        out = [f]
+        for n in f.walk():
+            m = n.get('callee', {}).get('m')
+            if m in fb.funcs and fb.funcs[m].file == f.file and fb.funcs[m].rec is None and fb.funcs[m] not in out:
+                out.append(fb.funcs[m])
+        return out
+
+    def name_tests(f):
+        return [(g_, n) for g_ in closure(f) for n in g_.walk() if n['k'] in ('CXXMemberCallExpr', 'CXXOperatorCallExpr') and (
+            n.get('callee', {}).get('q', '').endswith('::compare') or n.get('op') == '==') and any(x['k'] == 'StringLiteral' and x.get('str') in SYSTEM_VARS for x in sub(n))]
+    # 1. normalisation before the comparison: what is compared with the names is not a parameter as it came in
+    cmps = name_tests(asg)
     if not cmps:
         raise AnalysisBroken('LuaDataModel::assign: protected-name comparisons not found')
-    raw = [n for n in cmps if any(x['k'] == 'DeclRefExpr' and x.get('ref', {}).get('lid') in loc for x in sub(n))]
-    rep.check(not raw, 'R16.8', 'assign|normalised location', locstr(cmps[0]), 'the protected-name tests compare %s' % (
-        'a normalised copy of the location' if not raw else 'the RAW location string with the exact names: " _name", "_event.name" or "_G._name" are other spellings of the same variable and pass'))
+    raw = [(g_, n) for g_, n in cmps if any(x['k'] == 'DeclRefExpr' and x.get('ref', {}).get('lid') in [p_['lid'] for p_ in g_.d.get('params', [])] for x in sub(n))]
+    rep.check(not raw, 'R16.8', 'assign|normalised location', locstr(cmps[0][1]), 'the protected-name tests compare %s' % (
+        'the variable the location starts with (a normalised copy)' if not raw else 'the RAW location string with the exact names: " _name", "_event.name" or "_event[1]" are other spellings of the same variable and pass'))
     # 2. foreach
     sf = fb.fn('uscxml::LuaDataModel::setForeach', required=False)
     if sf is None:
         raise AnalysisBroken('LuaDataModel::setForeach not found')
-    tests = [n for n in sf.walk() if any(x['k'] == 'StringLiteral' and x.get('str') in SYSTEM_VARS for x in sub(n)) and n['k'] in ('CXXMemberCallExpr', 'CXXOperatorCallExpr')] or [
-        n for n in sf.walk() if n.get('callee', {}).get('q', '').endswith('LuaDataModel::assign')]
+    tests = name_tests(sf)
     rep.check(bool(tests), 'R16.8', 'setForeach|item and index', sf.where(), 'setForeach writes the globals named by item / index %s' % (
         'after the protected-name test' if tests else 'WITHOUT the protected-name test: <foreach item="_sessionid"> overwrites the system variable'))
+    # 3. the variables themselves: plain Lua globals can be written by any chunk the chart supplies (<script>, _G.x = ..)
+    guards = [n for f in fb.funcs.values() if f.file.endswith('LuaDataModel.cpp') for n in f.walk() if n['k'] == 'StringLiteral' and n.get('str') in ('__newindex', '__metatable')] + [
+        n for f in fb.funcs.values() if f.file.endswith('LuaDataModel.cpp') for n in f.walk() if n.get('callee', {}).get('q', '') in ('lua_setmetatable', 'luaL_setmetatable')]
+    rep.check(bool(guards), 'R16.8', 'globals|write guard inside Lua', fb.fn('uscxml::LuaDataModel::setup', required=False).where() if fb.fn('uscxml::LuaDataModel::setup', required=False) else asg.where(),
+              'the system variables are %s' % ('guarded inside Lua (metatable)' if guards else 'plain Lua globals without a write guard (no metatable / __newindex): <script>_ioprocessors = 42</script> and location="_G._invokers" change them without an error'))
 
 
 def kind_before_size(rep, fb, d2l):
@@ -161,6 +174,30 @@ def kind_before_size(rep, fb, d2l):
             only_size = not any(x['k'] == 'DeclRefExpr' and x.get('ref', {}).get('name') == 'VERBATIM' for x in sub(cn))
             if only_size and (edge_dominates(g, bid, True, tb) or edge_dominates(g, bid, False, tb)):
                 sized = cn
+    # ... and an empty table is distinguishable from nil: the table arm of getLuaAsData leaves a mark when there is no item
+    l2d = fb.fn('uscxml::getLuaAsData')
+    arm = None
+    for n in l2d.walk():
+        if n['k'] == 'IfStmt' and 'table' in cond_tags(n['c'][0]) and arm is None:
+            arm = n['c'][1]
+    if arm is None:
+        raise AnalysisBroken('getLuaAsData: table arm not found')
+    marks = [x for x in sub(arm) if x['k'] in ('BinaryOperator', 'CXXOperatorCallExpr') and x.get('op') == '=' and any(
+        y['k'] == 'MemberExpr' and y['ref'].get('name') in ('atom', 'type') and y['ref'].get('rec', '').endswith('Data') for y in sub(x['c'][0] if x['k'] == 'BinaryOperator' else x['c'][1])) and not any(
+        a_['k'] in ('ForStmt', 'CXXForRangeStmt', 'WhileStmt') for a_ in l2d.ancestors(x) if any(z is a_ for z in sub(arm)))]
+    rep.check(bool(marks), 'R16.10', 'getLuaAsData|empty table', locstr(arm), 'an empty Lua table %s' % (
+        'is marked in the Data it becomes' if marks else 'becomes a Data without any content, which getDataAsLua (and toJSON) cannot tell from nil: {} comes back as nil, {{},{1}} as {{1}}'))
+    # ... and integers keep their value: Lua 5.3 numbers have an integer subtype with 64 bits, a double has 53
+    narm = None
+    for n in l2d.walk():
+        if n['k'] == 'IfStmt' and 'number' in cond_tags(n['c'][0]) and narm is None:
+            narm = n['c'][1]
+    if narm is None:
+        raise AnalysisBroken('getLuaAsData: number arm not found')
+    via_double = any(x.get('callee', {}).get('q', '').startswith('luabridge::LuaRef::cast') and 'double' in (x.get('t') or '') for x in sub(narm))
+    int_aware = any(x.get('callee', {}).get('q', '') in ('lua_isinteger', 'lua_tointegerx') or 'long long' in (x.get('t') or '') for x in sub(narm))
+    rep.check(int_aware or not via_double, 'R16.10', 'getLuaAsData|integer subtype', locstr(narm), 'a Lua number is read %s' % (
+        'with its integer subtype' if int_aware or not via_double else 'as a double whatever its subtype: integers beyond 2^53 (9007199254740993, 1234567890123456789) come back as another value'))
     rep.check(sized is None, 'R16.10', 'getDataAsLua|verbatim atom', locstr(st), 'a VERBATIM atom becomes a Lua string %s' % (
         'whatever its length' if sized is None else 'only if `%s`: the empty string falls through to nil' % ' '.join(fb.text(sized).split())[:50]))
 
